@@ -2,7 +2,10 @@
 
 // Package c13sync drives the real rate limiters and the real work queue inside a
 // testing/synctest bubble (virtual clock, exact timestamps). Needs go1.26.8.
-// It prints one case line per arrival pattern: the observed run timestamps.
+// It prints one case line per arrival pattern: the observed run START timestamps.
+// `reloadd` / `ingressd` lines carry per-run durations: the sync callback sleeps that long inside the
+// bubble (virtual time, exact), so that notifications arrive WHILE a run occupies the single worker and
+// WorkQueue.process calls the limiter's Forget (and Done) at the end of the run.
 package c13sync
 
 import (
